@@ -9,6 +9,7 @@ pub mod findings;
 pub mod hashseed;
 pub mod isolate;
 pub mod rng;
+pub mod scratch;
 pub mod workers;
 
 pub use rng::Rng;
@@ -42,6 +43,60 @@ pub fn on_fresh_thread<R: Send + 'static>(
         Ok(r) => Ok(r),
         Err(e) => Err(panic_message(&e)),
     }
+}
+
+/// Like `on_fresh_thread`, but first shifts the heap layout of the run thread by a seeded series
+/// of leaked allocations (`heap_salt` = 0: none). With ASLR off (see `ensure_no_aslr`) this makes
+/// "results depend on memory addresses" (pointer-keyed ordering) a deterministic, replayable
+/// dimension of a sweep instead of an uncontrolled source of noise.
+pub fn on_fresh_thread_salted<R: Send + 'static>(
+    hash_seed: u64,
+    heap_salt: u64,
+    stack_mb: usize,
+    f: impl FnOnce() -> R + Send + 'static,
+) -> Result<R, String> {
+    on_fresh_thread(hash_seed, stack_mb, move || {
+        if heap_salt != 0 {
+            let mut r = Rng::new(heap_salt);
+            let n = r.range(8, 64);
+            for _ in 0..n {
+                let size = r.range(16, 4096) as usize;
+                let v: Vec<u8> = Vec::with_capacity(size);
+                std::mem::forget(v);
+            }
+        }
+        f()
+    })
+}
+
+/// Re-execute the current process with address-space layout randomisation switched off (once).
+/// Memory addresses are then a function of the allocation history only, which the simulator
+/// controls; without this, code that orders things by pointer value differs between two
+/// otherwise identical processes and replay files could not be exact.
+pub fn ensure_no_aslr() {
+    const ADDR_NO_RANDOMIZE: libc::c_ulong = 0x0040000;
+    if std::env::var_os("VERIF_ASLR_KEEP").is_some() {
+        return;
+    }
+    unsafe {
+        let cur = libc::personality(0xffff_ffff);
+        if cur < 0 || (cur as libc::c_ulong & ADDR_NO_RANDOMIZE) != 0 {
+            return;
+        }
+        if libc::personality(cur as libc::c_ulong | ADDR_NO_RANDOMIZE) < 0 {
+            return;
+        }
+    }
+    if std::env::var_os("VERIF_NO_ASLR_REEXEC").is_some() {
+        return; // already tried once; do not loop
+    }
+    use std::os::unix::process::CommandExt;
+    let exe = match std::env::current_exe() {
+        Ok(e) => e,
+        Err(_) => return,
+    };
+    let err = std::process::Command::new(exe).args(std::env::args_os().skip(1)).env("VERIF_NO_ASLR_REEXEC", "1").exec();
+    eprintln!("harness: re-exec without ASLR failed: {err}");
 }
 
 pub fn panic_message(e: &Box<dyn std::any::Any + Send>) -> String {
